@@ -53,7 +53,6 @@ Definition cxof (i v : N) : vctx := {| cx_instance := i; cx_version := v; cx_cli
 Definition okeys_eqb (a b : res (list bytes)) : bool := res_eqb keys_eqb a b.
 Definition okv_eqb (a b : res (list (bytes * bytes))) : bool := res_eqb (list_eqb pair_eqb) a b.
 
-(* stored value [] and "no value" are the same thing to a caller of db.Get *)
 Definition point_model (table : list (bytes * verdict)) (i v : N) (k : bytes) (s : store) : res (option bytes) :=
   kv_get_data (best_of table) (cxof i v) k s.
 
@@ -100,8 +99,8 @@ Definition model_ok (c : c05case) : bool :=
    3 DeleteRange: a key of the interval is still readable at the version, or a read outside
      (other key, ancestor, sibling) changed;  4 a range answered although a key of the interval is in
      unresolved conflict (or failed without one);
-   5 KNOWN FINDING: a key whose stored value is empty is listed by keys-only / range queries while
-     its point read finds nothing (and only that);  6 a request failed (5xx / panic) *)
+   (5 retired: the empty-value finding, repaired by C05-1-fix; an empty stored value is a value and
+   is judged like any other);  6 a request failed (5xx / panic) *)
 
 Fixpoint insert_sorted (k : bytes) (l : list bytes) : list bytes :=
   match l with
@@ -112,12 +111,6 @@ Definition sort_keys (l : list bytes) : list bytes := fold_right insert_sorted [
 
 Definition in_interval (lo hi k : bytes) : bool := lex_leb lo k && lex_leb k hi.
 
-(* the chosen stored value of a key string is empty *)
-Definition stored_empty (table : list (bytes * verdict)) (s : store) (k : bytes) : bool :=
-  match find (fun e => bytes_eqb (fst e) (kv_tkey k)) table with
-  | Some (_, VSome key) => match kv_get key s with Some [] => true | _ => false end
-  | _ => false
-  end.
 Definition conflicted (table : list (bytes * verdict)) (k : bytes) : bool :=
   match find (fun e => bytes_eqb (fst e) (kv_tkey k)) table with
   | Some (_, VConflict) => true
@@ -126,12 +119,9 @@ Definition conflicted (table : list (bytes * verdict)) (k : bytes) : bool :=
 
 Definition found {A} (r : res (option A)) : bool := match r with Ok (Some _) => true | _ => false end.
 
-(* compare an observed key list against the strict expectation (keys whose point read finds a value)
-   and the lenient one (plus keys whose stored value is empty); returns the class *)
-Definition judge (bad known : nat) (observed strict lenient : list bytes) : nat :=
-  if keys_eqb observed strict then 0%nat
-  else if keys_eqb observed lenient then known
-  else bad.
+(* compare an observed key list against the expectation: the keys whose point read finds a value *)
+Definition judge (bad : nat) (observed expected : list bytes) : nat :=
+  if keys_eqb observed expected then 0%nat else bad.
 
 Definition spec_query (table : list (bytes * verdict)) (s : store)
            (points : list (bytes * res (option bytes) * res (option bytes))) (q : c05query) : nat :=
@@ -140,9 +130,7 @@ Definition spec_query (table : list (bytes * verdict)) (s : store)
   let get_db k := match find (fun p => bytes_eqb (fst (fst p)) k) points with Some (_, g, _) => g | None => Ok None end in
   let get_http k := match find (fun p => bytes_eqb (fst (fst p)) k) points with Some (_, _, g) => g | None => Ok None end in
   let strict_db := filter (fun k => found (get_db k)) inside in
-  let lenient_db := filter (fun k => found (get_db k) || stored_empty table s k) inside in
   let strict_http := filter (fun k => found (get_http k)) inside in
-  let lenient_http := filter (fun k => found (get_http k) || stored_empty table s k) inside in
   let nul := existsb (N.eqb 0) (q_lo q) || existsb (N.eqb 0) (q_hi q) in
   if nul then 0%nat
   else if existsb (conflicted table) inside then
@@ -154,15 +142,20 @@ Definition spec_query (table : list (bytes * verdict)) (s : store)
   else
     match q_range q, q_keys q, q_http_keyrange q, q_http_json q, q_http_tar q with
     | Ok rg, Ok ks, Ok hk, Ok hj, Ok ht =>
-      let c1 := judge 1 5 (map fst rg) (map kv_tkey strict_db) (map kv_tkey lenient_db) in
+      let c1 := judge 1 (map fst rg) (map kv_tkey strict_db) in
       let vals_ok := forallb (fun e => match get_db (match decode_term_tkey kc_keyvalue_NewTKey (fst e) with Ok k => k | _ => [] end) with
                                        | Ok (Some v) => bytes_eqb v (snd e)
-                                       | _ => match snd e with [] => true | _ => false end   (* the empty-value shape *)
+                                       | _ => false
                                        end) rg in
-      let c2 := judge 1 5 ks (map kv_tkey strict_db) (map kv_tkey lenient_db) in
-      let c3 := judge 2 5 hk strict_http lenient_http in
+      let c2 := judge 1 ks (map kv_tkey strict_db) in
+      let c3 := judge 2 hk strict_http in
       let hv l := forallb (fun e => match get_http (fst e) with Ok (Some v) => bytes_eqb v (snd e) | _ => false end) l in
-      let c4 := if keys_eqb (map fst hj) strict_http && hv hj then 0%nat else 2%nat in
+      (* the JSON renderer writes an empty payload as {} *)
+      let hvj l := forallb (fun e => match get_http (fst e) with
+                                     | Ok (Some []) => bytes_eqb (snd e) [123; 125]
+                                     | Ok (Some v) => bytes_eqb v (snd e)
+                                     | _ => false end) l in
+      let c4 := if keys_eqb (map fst hj) strict_http && hvj hj then 0%nat else 2%nat in
       let c5 := if keys_eqb (map fst ht) strict_http && hv ht then 0%nat else 2%nat in
       if negb vals_ok then 1%nat
       else Nat.max c1 (Nat.max c2 (Nat.max c3 (Nat.max c4 c5)))
@@ -170,13 +163,11 @@ Definition spec_query (table : list (bytes * verdict)) (s : store)
     | _, _, _, _, _ => 4%nat
     end.
 
-(* worst class wins, except that the known class 5 never hides another one *)
+(* the first failure wins *)
 Definition worse (a b : nat) : nat :=
   match a, b with
   | O, _ => b
   | _, O => a
-  | 5%nat, _ => b
-  | _, 5%nat => a
   | _, _ => Nat.min a b
   end.
 
@@ -186,12 +177,11 @@ Definition spec_class (c : c05case) : nat :=
     let universe := sort_keys (map (fun p => fst (fst p)) points) in
     let get_http k := match find (fun p => bytes_eqb (fst (fst p)) k) points with Some (_, _, g) => g | None => Ok None end in
     let strict := filter (fun k => found (get_http k)) universe in
-    let lenient := filter (fun k => found (get_http k) || stored_empty table s k) universe in
     let c_keys :=
       if existsb (conflicted table) universe then
         match all_keys with Err => 0%nat | _ => 4%nat end
       else match all_keys with
-           | Ok ks => judge 2 5 ks strict lenient
+           | Ok ks => judge 2 ks strict
            | Err => 4%nat
            | Panic => 6%nat
            end in
